@@ -206,7 +206,11 @@ func c18Combination(k int) ([4]string, bool) {
 			}
 			seen[kind] = true
 			for _, where := range []string{"first", "middle", "last"} {
-				for which := 0; which < 3; which++ {
+				nwhich := 3
+				if kind == "window" {
+					nwhich = 8 // every shape of bad window, at each position
+				}
+				for which := 0; which < nwhich; which++ {
 					if k == 0 {
 						return [4]string{cmd, kind, where, fmt.Sprint(which)}, true
 					}
@@ -458,7 +462,7 @@ func execExitC18(c *Case, dir string) {
 	case "window":
 		L := s.reflen
 		var st, en int
-		switch atoi(c.Get("which")) % 5 {
+		switch atoi(c.Get("which")) % 8 {
 		case 0:
 			st, en = 0, L
 		case 1:
@@ -467,8 +471,17 @@ func execExitC18(c *Case, dir string) {
 			st, en = L+1, -1
 		case 3:
 			st, en = 5, 4
-		default:
+		case 4:
 			st, en = -1, 0
+		case 5:
+			st, en = -1, -7 // an end below 1 that is not the "unset" value, no start
+			if c.Get("cmd") == "toma" {
+				args = append(args, "--pad")
+			}
+		case 6:
+			st, en = -3, -1 // a start below 1 that is not the "unset" value, no end
+		default:
+			st, en = 2, 0
 		}
 		if st != -1 {
 			args = append(args, "--start", fmt.Sprint(st))
